@@ -3,7 +3,7 @@
    If an index expression of _sliding_window_transform, of the recursive / dirrec feedback loops or
    of _get_last_window changes in the source, the corresponding lemma stops checking. *)
 From Coq Require Import ZArith Bool Lia ZifyBool.
-Require Import SkV.C05.Model SkV.C05.Gen.
+Require Import SkV.C05.Model SkV.C05.Hist SkV.C05.Gen.
 Open Scope Z_scope.
 
 Lemma bridge_reject wl fm n : gen_reject wl fm n = swt_reject wl fm n.
@@ -42,3 +42,14 @@ Lemma bridge_dr_fit_hi wl i : gen_dr_fit_hi wl i = dr_fit_hi wl i.
 Proof. unfold gen_dr_fit_hi, dr_fit_hi. lia. Qed.
 Lemma bridge_lw_shift wl : gen_lw_shift wl = lw_shift wl.
 Proof. unfold gen_lw_shift, lw_shift. lia. Qed.
+
+(* the window `_get_last_window` selects for every reducer class (inherited from
+   _BaseWindowForecaster, see translator/reduce_c05.py): the rows of the remembered series whose
+   LABEL lies in [cutoff - window_length + 1, cutoff] - the model's get_last_window *)
+Lemma bridge_lw_lo wl c : gen_lw_lo wl c = c + lw_shift wl.
+Proof. unfold gen_lw_lo, lw_shift. lia. Qed.
+Lemma bridge_lw_hi wl c : gen_lw_hi wl c = c.
+Proof. unfold gen_lw_hi. lia. Qed.
+Lemma bridge_last_window_by_label wl c s :
+  tloc s (gen_lw_lo wl c) (gen_lw_hi wl c) = get_last_window wl c s.
+Proof. unfold get_last_window. rewrite bridge_lw_lo, bridge_lw_hi. reflexivity. Qed.
